@@ -1879,7 +1879,9 @@ class MacroExpander:
                             )
                             pre_expanded.append((arg, arg_expansion))
                         else:
-                            pre_expanded.append((arg,))
+                            # The expansion is never substituted, but the
+                            # variadic arguments are gathered from both forms.
+                            pre_expanded.append((arg, arg))
                     # Proper expand
                     replacement = macro_lookup.replace(pre_expanded)
                     if isinstance(replacement, list) and len(replacement) > 0:
